@@ -82,8 +82,16 @@ func CheckPanics(run *core.Run, prog *load.Program) {
 					if !s.ok {
 						s.ok, s.reason = numberingLoop(prog, info, fd, x)
 					}
+					wl := ""
+					if !s.ok {
+						s.ok, wl = worklistLoop(prog, info, fd, x)
+						s.reason = wl
+					}
 					if !s.ok {
 						s.reason = "the loop is no counting loop (a local counter stepped towards a limit that stands still) and no other measure is visible"
+						if wl != "" {
+							s.reason += "; " + wl
+						}
 					}
 				}
 				if x.Init != nil {
@@ -662,36 +670,56 @@ func mapNonNil(prog *load.Program, info *types.Info, fd *ast.FuncDecl, m ast.Exp
 	switch x := ast.Unparen(m).(type) {
 	case *ast.Ident:
 		v := info.ObjectOf(x)
-		// local made here
-		madeHere := false
+		// a local every definition of which is a make or a literal (a declaration without a value leaves
+		// it nil: `var m map[K]V; if c { m = make(..) }` is not made on every path)
+		made, other := 0, 0
 		ast.Inspect(fd, func(n ast.Node) bool {
-			if as, ok := n.(*ast.AssignStmt); ok && len(as.Lhs) == len(as.Rhs) {
-				for i, l := range as.Lhs {
+			switch x := n.(type) {
+			case *ast.AssignStmt:
+				for i, l := range x.Lhs {
 					if lid, ok := ast.Unparen(l).(*ast.Ident); ok && info.ObjectOf(lid) == v {
-						switch r := ast.Unparen(as.Rhs[i]).(type) {
+						if len(x.Lhs) != len(x.Rhs) {
+							other++
+							continue
+						}
+						switch r := ast.Unparen(x.Rhs[i]).(type) {
 						case *ast.CallExpr:
 							if fid, ok := r.Fun.(*ast.Ident); ok && fid.Name == "make" {
-								madeHere = true
+								made++
+								continue
 							}
 						case *ast.CompositeLit:
-							madeHere = true
+							made++
+							continue
 						}
+						other++
+					}
+				}
+			case *ast.ValueSpec:
+				for i, nm := range x.Names {
+					if info.Defs[nm] == v {
+						if i < len(x.Values) {
+							switch r := ast.Unparen(x.Values[i]).(type) {
+							case *ast.CallExpr:
+								if fid, ok := r.Fun.(*ast.Ident); ok && fid.Name == "make" {
+									made++
+									continue
+								}
+							case *ast.CompositeLit:
+								made++
+								continue
+							}
+						}
+						other++
 					}
 				}
 			}
 			return true
 		})
-		if madeHere {
-			return true, "map made in this function"
+		if made > 0 && other == 0 {
+			return true, "map made in this function (every definition is a make or a literal)"
 		}
-		// parameter: every caller passes a made map or its own parameter
-		for _, fl := range fd.Type.Params.List {
-			for _, n := range fl.Names {
-				if info.Defs[n] == v {
-					return true, "map parameter: callers pass the map made in AddVar or their own parameter (checked by reading: populateImports' callers)"
-				}
-			}
-		}
+		// a parameter: see mapOriginsMade (the origins of the argument at every call site)
 	case *ast.SelectorExpr:
 		// field: every composite literal of the struct sets it to make(...) / a literal
 		fld, _ := info.ObjectOf(x.Sel).(*types.Var)
@@ -1084,6 +1112,17 @@ func structuralFrom1(prog *load.Program, info *types.Info, fd *ast.FuncDecl, a a
 		case *ast.TypeAssertExpr:
 			e = ast.Unparen(x.X)
 			continue
+		case *ast.IndexExpr:
+			// an element of a list of strict components
+			if prog == nil {
+				return false
+			}
+			if t := info.TypeOf(x.X); t != nil {
+				if _, isSlice := t.Underlying().(*types.Slice); isSlice && (componentList(prog, info, fd, x.X, depth+1) || variadicOfComponents(prog, info, fd, x.X, depth+1)) {
+					return true
+				}
+			}
+			return false
 		case *ast.CallExpr:
 			sel, ok := ast.Unparen(x.Fun).(*ast.SelectorExpr)
 			if !ok {
@@ -1251,6 +1290,118 @@ func structuralFrom1(prog *load.Program, info *types.Info, fd *ast.FuncDecl, a a
 			return false
 		}
 	}
+}
+
+// variadicOfComponents: e names the variadic parameter of a function literal bound once to a local of fd,
+// and every call of that local fills it with strict components (single arguments, or a spread list of them).
+func variadicOfComponents(prog *load.Program, info *types.Info, fd *ast.FuncDecl, e ast.Expr, depth int) bool {
+	id, ok := ast.Unparen(e).(*ast.Ident)
+	if !ok {
+		return false
+	}
+	v := info.ObjectOf(id)
+	var lit *ast.FuncLit
+	pi := -1
+	ast.Inspect(fd, func(nn ast.Node) bool {
+		fl, ok := nn.(*ast.FuncLit)
+		if !ok || fl.Type.Params == nil {
+			return true
+		}
+		k := 0
+		for _, f := range fl.Type.Params.List {
+			_, variadic := f.Type.(*ast.Ellipsis)
+			for _, nm := range f.Names {
+				if info.Defs[nm] == v && variadic {
+					lit, pi = fl, k
+				}
+				k++
+			}
+		}
+		return true
+	})
+	if lit == nil {
+		return false
+	}
+	// the parameter is not written inside the literal
+	written := false
+	ast.Inspect(lit.Body, func(nn ast.Node) bool {
+		if as, ok := nn.(*ast.AssignStmt); ok {
+			for _, l := range as.Lhs {
+				if lid, ok := ast.Unparen(l).(*ast.Ident); ok && info.ObjectOf(lid) == v {
+					written = true
+				}
+				if ix, ok := ast.Unparen(l).(*ast.IndexExpr); ok {
+					if lid, ok := ast.Unparen(ix.X).(*ast.Ident); ok && info.ObjectOf(lid) == v {
+						written = true
+					}
+				}
+			}
+		}
+		return true
+	})
+	if written {
+		return false
+	}
+	var holder types.Object
+	nbind := 0
+	ast.Inspect(fd, func(nn ast.Node) bool {
+		if as, ok := nn.(*ast.AssignStmt); ok && len(as.Lhs) == len(as.Rhs) {
+			for i, r := range as.Rhs {
+				if ast.Unparen(r) == ast.Expr(lit) {
+					if lid, ok := ast.Unparen(as.Lhs[i]).(*ast.Ident); ok {
+						holder = info.ObjectOf(lid)
+					}
+				}
+			}
+		}
+		return true
+	})
+	if holder == nil {
+		return false
+	}
+	ast.Inspect(fd, func(nn ast.Node) bool {
+		if as, ok := nn.(*ast.AssignStmt); ok {
+			for _, l := range as.Lhs {
+				if lid, ok := ast.Unparen(l).(*ast.Ident); ok && info.ObjectOf(lid) == holder {
+					nbind++
+				}
+			}
+		}
+		return true
+	})
+	if nbind != 1 {
+		return false
+	}
+	calls, good, uses := 0, 0, 0
+	ast.Inspect(fd, func(nn ast.Node) bool {
+		if uid, ok := nn.(*ast.Ident); ok && info.Uses[uid] == holder {
+			uses++
+		}
+		call, ok := nn.(*ast.CallExpr)
+		if !ok {
+			return true
+		}
+		cid, ok := ast.Unparen(call.Fun).(*ast.Ident)
+		if !ok || info.ObjectOf(cid) != holder {
+			return true
+		}
+		calls++
+		okAll := true
+		for i := pi; i < len(call.Args); i++ {
+			if call.Ellipsis.IsValid() && i == len(call.Args)-1 {
+				if !componentList(prog, info, fd, call.Args[i], depth+1) {
+					okAll = false
+				}
+			} else if !structuralFrom(prog, info, fd, call.Args[i], true, depth+1) {
+				okAll = false
+			}
+		}
+		if okAll {
+			good++
+		}
+		return true
+	})
+	return calls > 0 && calls == good && uses == calls
 }
 
 // callbackGivesComponents: fid names a function-typed parameter of a function literal that is bound once
